@@ -320,7 +320,7 @@ theorem inv_iness {d d' : Daemon} (h : Inv d)
     (hconns : d'.conns = d.conns) (hsusp : d'.susp = d.susp)
     (hnormal : d'.normal = d.normal) (hmanual : d'.manual = d.manual)
     (hnde : d'.eready.Nodup) (hnep : d'.cfg.epoll = false → d'.eready = [] ∧ d'.kq = [])
-    (hrdy : ∀ j, j ∈ d'.eready ∨ j ∈ d'.kq → j ∈ d.eready ∨ j ∈ d.kq ∨ j ∈ d.conns)
+    (hrdy : ∀ j, j ∈ d'.eready ∨ j ∈ d'.kq → j ∈ d.eready ∨ j ∈ d.kq ∨ j ∈ d.conns ∨ j ∈ d.cleanup)
     (hc : ∀ j, (d'.c j).la = (d.c j).la ∧ (d'.c j).tmo = (d.c j).tmo ∧ (d'.c j).suspended = (d.c j).suspended) :
     Inv d' := by
   constructor
